@@ -8,6 +8,10 @@ package main
 //          session the whole history is replayed through the incremental-redraw machine (op 1503) as well.
 // The scroll offset is not reported by GET; it is tracked with the extracted constrain (op 1501), one call per step
 // (one action list = one render).  Arbitrary-Unicode lists: only the width bound and the prompt/info/header rows.
+// The header is part of the state although GET / does not report it: header actions (toggle-header, hide-header,
+// show-header, change-header, transform-header) are tracked from what the harness sends (c15hdr.go), every screen is
+// judged against the configuration of ITS step, and histories with header actions go through the dynamic-header
+// machine (op 1508, RenderDynModel) instead of op 1503.
 
 import (
 	"encoding/json"
@@ -85,16 +89,25 @@ func (cs *c15Case) args() []string {
 }
 
 
-func (cs *c15Case) cfgVal() Val {
+func (cs *c15Case) cfgVal() Val { return cs.cfgValH(cs.Header, cs.HLines) }
+
+// hdrVals: the --header lines and the first nhl --header-lines lines as the model takes them
+func (cs *c15Case) hdrVals(header []string, nhl int) (Val, Val) {
 	hdr := []Val{}
-	for _, h := range cs.Header {
+	for _, h := range header {
 		hdr = append(hdr, runesVal(h))
 	}
 	hl := []Val{}
 	texts := cs.texts()
-	for i := 0; i < cs.HLines && i < len(texts); i++ {
+	for i := 0; i < nhl && i < len(texts); i++ {
 		hl = append(hl, runesVal(texts[i]))
 	}
+	return L(hdr...), L(hl...)
+}
+
+// cfgValH: the configuration with the header as it stands at some point of the history (see c15hdr.go)
+func (cs *c15Case) cfgValH(header []string, nhl int) Val {
+	hdr, hl := cs.hdrVals(header, nhl)
 	multi := cs.Multi
 	if multi < 0 {
 		multi = 2147483647
@@ -103,7 +116,7 @@ func (cs *c15Case) cfgVal() Val {
 	if ts <= 0 {
 		ts = 8
 	}
-	return L(I(cs.W), I(cs.H), I(cs.Layout), I(cs.Info), B(cs.Sep), L(hdr...), L(hl...), I(multi), I(ts))
+	return L(I(cs.W), I(cs.H), I(cs.Layout), I(cs.Info), B(cs.Sep), hdr, hl, I(multi), I(ts))
 }
 
 var c15SGR = regexp.MustCompile("\x1b\\[[0-9;]*m")
@@ -149,8 +162,9 @@ func (cs *c15Case) promptLines() int {
 	}
 	return 2
 }
-func (cs *c15Case) maxItems() int {
-	return max(cs.H-len(cs.Header)-cs.HLines-cs.promptLines(), 0)
+func (cs *c15Case) maxItems() int { return cs.maxItemsH(len(cs.Header), cs.HLines) }
+func (cs *c15Case) maxItemsH(nheader, nhl int) int {
+	return max(cs.H-nheader-nhl-cs.promptLines(), 0)
 }
 
 func c15View(st *FzfState, cy, off int, prompt string) Val {
@@ -293,8 +307,13 @@ func c15RunOnce(c *Ctx, cs *c15Case, count bool, timeout time.Duration) (*c15Fai
 	defer s.Close()
 	vt := newVT(cs.W, cs.H)
 	cfg := cs.cfgVal()
+	cfg0 := cfg
 	mode := cs.modeVal()
 	maxl := cs.maxItems()
+	// the header as the actions sent so far leave it (GET / does not report it): every screen is judged against
+	// the configuration of its own step
+	hdr := newC15Hdr(cs)
+	dyn := false // some step changed the header: the history is replayed through the dynamic-header machine (op 1508)
 	total := len(cs.Lines) - cs.HLines
 	off := 0
 	query := ""
@@ -305,9 +324,32 @@ func c15RunOnce(c *Ctx, cs *c15Case, count bool, timeout time.Duration) (*c15Fai
 	type hist struct {
 		view Val // [query, matches, total, cy(raw), sel]
 		rows []string
+		hdr  Val // [visible, [--header lines], [--header-lines lines]] after the step
 	}
 	var history []hist
 	steps := 0
+	// the dynamic-header machine (op 1508) on the steps compared so far plus, when cur is given, the current one:
+	// one [cy, off, rows] per step
+	machine := func(cur *hist) Val {
+		hs := history
+		if cur != nil {
+			hs = append(append([]hist{}, history...), *cur)
+		}
+		if len(hs) == 0 {
+			return L()
+		}
+		h0 := hs[0].view
+		v0 := L(h0.L[0], h0.L[1], h0.L[2], h0.L[3], I(0), h0.L[4], h0.L[6])
+		ds := []Val{}
+		for _, h := range hs[1:] {
+			ds = append(ds, L(h.hdr, h.view))
+		}
+		return c.Model.Call(1508, L(cfg0, hs[0].hdr, v0, L(ds...)))
+	}
+	// known finding reverse-list-header-remnant: in the reverse-list layout (header inside the list window) the
+	// faithful incremental model itself leaves header text in list rows when the header goes away.  A failing
+	// screen is that finding exactly when it is the screen the model predicts for this history.
+	remnantDomain := cs.exact() && cs.Layout == 2 && cs.HLines == 0
 	for step := -1; step < len(cs.Actions); step++ {
 		if step >= 0 {
 			act := cs.Actions[step]
@@ -319,13 +361,74 @@ func c15RunOnce(c *Ctx, cs *c15Case, count bool, timeout time.Duration) (*c15Fai
 			}
 			query = c15Query(query, act)
 			prompt = c15Prompt(prompt, act)
+			if c15HasHeaderAction(act) {
+				hdr.apply(act)
+				dyn = true
+				cfg = cs.cfgValH(hdr.header(), hdr.hlines(cs))
+				maxl = cs.maxItemsH(len(hdr.header()), hdr.hlines(cs))
+			}
+		}
+		hdrStep := step >= 0 && c15HasHeaderAction(cs.Actions[step])
+		var pos, cy, noff int
+		var view Val
+		var wantRows []string
+		var rows []string
+		curHist := func() *hist {
+			hh, hl := cs.hdrVals(hdr.Lines, cs.HLines)
+			return &hist{view: L(view.L[0], view.L[1], view.L[2], I(pos), view.L[5], L(B(true), B(true), B(hdrStep), B(true), B(false)), view.L[6]),
+				hdr: L(B(hdr.Visible), hh, hl)}
+		}
+		var predicted []string // the machine's screen for this step (remnantDomain only), computed on demand
+		isRemnant := func() bool {
+			if !remnantDomain || !dyn || len(history) == 0 || rows == nil || wantRows == nil {
+				return false
+			}
+			if predicted == nil {
+				res := machine(curHist())
+				if len(res.L) != len(history)+1 || len(res.L[len(history)].L) != 3 {
+					return false
+				}
+				predicted = valRows(res.L[len(history)].L[2])
+			}
+			same, faithful := len(predicted) == len(rows), true
+			for r := range rows {
+				if r >= len(predicted) || rows[r] != predicted[r] {
+					same = false
+				}
+				if r >= len(wantRows) || rows[r] != wantRows[r] {
+					faithful = false
+				}
+			}
+			return same && !faithful
 		}
 		want := -1
 		if !cs.Unicode {
 			want = cs.expectCount(query)
 		}
+		var st *FzfState
+		// the screen is faithful to the header the windows of the reverse-list layout still show (hdr.stale())
+		isStaleHeader := func() bool {
+			if !hdr.stale() || st == nil || rows == nil {
+				return false
+			}
+			sh, snl := hdr.shown(cs)
+			co := c.Model.Call(1501, L(I(st.MatchCount), I(cs.maxItemsH(len(sh), snl)), I(3), I(pos), I(off)))
+			if len(co.L) != 2 {
+				return false
+			}
+			v2 := c15View(st, int(co.L[0].I), int(co.L[1].I), prompt)
+			for _, x := range c.Model.Call(1504, L(cs.cfgValH(sh, snl), v2, rowsVal(rows))).L {
+				code := int(x.I)
+				if !cs.exact() && (code >= 100 && code < 1000 || code >= 2000 && code < 5000) {
+					continue
+				}
+				return false
+			}
+			return true
+		}
 		_ = mode
-		st, ok := s.WaitFor(func(st *FzfState) bool {
+		var ok bool
+		st, ok = s.WaitFor(func(st *FzfState) bool {
 			return !st.Reading && st.TotalCount == total && st.Query == query && (want < 0 || st.MatchCount == want) &&
 				len(st.Matches) == st.MatchCount
 		}, timeout)
@@ -340,9 +443,6 @@ func c15RunOnce(c *Ctx, cs *c15Case, count bool, timeout time.Duration) (*c15Fai
 			return &c15Failure{Step: step, Kind: "corr", Name: "corr:C15.state_reached", Impl: got,
 				Expect: fmt.Sprintf("total=%d query=%q matchCount=%d", total, query, want)}, steps, nil
 		}
-		var pos, cy, noff int
-		var view Val
-		var wantRows []string
 		var modelErr error
 		expect := func() {
 			pos = max(st.Position, 0)
@@ -368,7 +468,6 @@ func c15RunOnce(c *Ctx, cs *c15Case, count bool, timeout time.Duration) (*c15Fai
 		}
 		// clauses of the spec that fail on the current screen (Unicode lists: text of list rows is not compared,
 		// the width is judged by the terminal's own column count)
-		var rows []string
 		var widths []int
 		var bad []int
 		var judgeNow func() bool
@@ -424,9 +523,21 @@ func c15RunOnce(c *Ctx, cs *c15Case, count bool, timeout time.Duration) (*c15Fai
 		// eventually-equal: the render goroutine may be a frame behind the event loop, and the result list of a
 		// new query may arrive after GET answered with the old one (same counts): look again at both
 		deadline := time.Now().Add(timeout)
+		remnantSeen := 0
 		for i := 0; ; i++ {
 			if judge() || time.Now().After(deadline) || s.Exited() {
 				break
+			}
+			if (remnantDomain && dyn || hdr.stale()) && i >= 30 && i%10 == 0 {
+				// the screen the classifier of a known finding predicts, seen three times 100 ms apart: no need to wait
+				if isRemnant() || isStaleHeader() {
+					remnantSeen++
+					if remnantSeen >= 3 {
+						break
+					}
+				} else {
+					remnantSeen = 0
+				}
 			}
 			if vt.Overflow > 0 && time.Now().Add(timeout).After(deadline.Add(500*time.Millisecond)) {
 				break // printed past the last column: reported at once (half a second to let the frame finish, for the report)
@@ -441,6 +552,7 @@ func c15RunOnce(c *Ctx, cs *c15Case, count bool, timeout time.Duration) (*c15Fai
 					(want < 0 || st2.MatchCount == want) && len(st2.Matches) == st2.MatchCount {
 					st = st2
 					judged = -1
+					predicted = nil
 					expect()
 					if modelErr != nil {
 						return nil, steps, modelErr
@@ -518,6 +630,13 @@ func c15RunOnce(c *Ctx, cs *c15Case, count bool, timeout time.Duration) (*c15Fai
 			if k := c15KnownInfoStale(cs, bad, rows, wantRows, st); k != "" {
 				f.Known = k
 			}
+			if f.Known == "" && isRemnant() {
+				f.Known = "reverse-list-header-remnant"
+			}
+			// known finding: reverse-list with --header-lines and no --header - hiding the header resizes nothing
+			if f.Known == "" && isStaleHeader() {
+				f.Known = "hide-header-keeps-header-lines"
+			}
 			return f, steps, nil
 		}
 		// ---- (5b) model vs implementation ----
@@ -529,7 +648,9 @@ func c15RunOnce(c *Ctx, cs *c15Case, count bool, timeout time.Duration) (*c15Fai
 				}
 			}
 			ms := view.L[1]
-			history = append(history, hist{view: L(view.L[0], ms, view.L[2], I(pos), view.L[5], L(B(true), B(true), B(false), B(true), B(false)), view.L[6]), rows: rows})
+			hh, hl := cs.hdrVals(hdr.Lines, cs.HLines)
+			history = append(history, hist{view: L(view.L[0], ms, view.L[2], I(pos), view.L[5], L(B(true), B(true), B(hdrStep), B(true), B(false)), view.L[6]), rows: rows,
+				hdr: L(B(hdr.Visible), hh, hl)})
 		}
 		off = noff
 		if count {
@@ -545,7 +666,16 @@ func c15RunOnce(c *Ctx, cs *c15Case, count bool, timeout time.Duration) (*c15Fai
 		for _, h := range history[1:] {
 			us = append(us, h.view)
 		}
-		res := c.Model.Call(1503, L(cfg, v0, L(us...)))
+		var res Val
+		switch {
+		case !dyn:
+			res = c.Model.Call(1503, L(cfg0, v0, L(us...)))
+		case cs.Layout == 2 && cs.HLines > 0:
+			// reverse-list with --header-lines: the header lives in windows of its own, outside RenderDynModel
+			return nil, steps, nil
+		default:
+			res = machine(nil)
+		}
 		if len(res.L) != len(history) {
 			return &c15Failure{Step: len(cs.Actions) - 1, Kind: "corr", Name: "corr:C15.incremental", Impl: "history of " + strconv.Itoa(len(history)), Expect: res.String()}, steps, nil
 		}
@@ -911,6 +1041,9 @@ func c15Check(c *Ctx, cs *c15Case) {
 		if fa.Kind == "spec" && strings.HasPrefix(fa.Name, "width_bound") || fa.Name == "no_crash" {
 			break // safety observation: reported at first sight
 		}
+		if fa.Known == "reverse-list-header-remnant" || fa.Known == "hide-header-keeps-header-lines" {
+			break // the screen is exactly the one the classifier predicts: nothing to confirm
+		}
 	}
 	c.Rep.mu.Lock()
 	c.Rep.ImplTraces++
@@ -944,6 +1077,12 @@ func c15Check(c *Ctx, cs *c15Case) {
 	c.Rep.Count(fmt.Sprintf("hlines=%d", cs.HLines))
 	if cs.Multi != 0 {
 		c.Rep.Count("multi")
+	}
+	for _, a := range cs.Actions {
+		if c15HasHeaderAction(a) {
+			c.Rep.Count("header_changes")
+			break
+		}
 	}
 	switch {
 	case cs.W < 20:
@@ -1104,7 +1243,7 @@ func c15TmuxCross(c *Ctx, cs *c15Case, id int) {
 func shQuote(s string) string { return "'" + strings.ReplaceAll(s, "'", `'\''`) + "'" }
 
 func runC15(c *Ctx) {
-	c.Rep.Rule = "one evaluation = one screen compared after a step of a random action history (movement, paging, pos, selection, typing) in a random plain configuration (3 layouts x 3 info styles, separator on/off, --header 0-3, --header-lines 0-3, --multi, window 20x8..120x40 quick / 4x3..200x60 thorough); non-trivial = non-empty result list after at least one action; distinct by configuration + query + scroll position + screen text"
+	c.Rep.Rule = "one evaluation = one screen compared after a step of a random action history (movement, paging, pos, selection, typing) in a random plain configuration (3 layouts x 3 info styles, separator on/off, --header 0-3, --header-lines 0-3, --multi, window 20x8..120x40 quick / 4x3..200x60 thorough; header actions toggle-header / hide-header / show-header / change-header / transform-header in a third of the sessions, each screen judged against the header of its own step); non-trivial = non-empty result list after at least one action; distinct by configuration + query + scroll position + screen text"
 	if c.Replay != "" {
 		var cs c15Case
 		b, err := os.ReadFile(c.Replay)
@@ -1139,16 +1278,36 @@ func runC15(c *Ctx) {
 			c15Kind(cs, c.Rng.Fork(), "tabs")
 		case 7:
 			c15Kind(cs, c.Rng.Fork(), Pick(c.Rng, []string{"tabs", "ansi"}))
+		case 1: // the header changes now and then in an ordinary history
+			c15AddHeaderActions(cs, c.Rng.Fork(), 6, false)
+		case 5: // the header comes and goes over short items
+			c15KindHdr(cs, c.Rng.Fork())
+		}
+		if i%16 == 11 { // tabs in items and header lines, and the header changes
+			c15AddHeaderActions(cs, c.Rng.Fork(), 5, false)
 		}
 		cases = append(cases, cs)
 	}
 	for i := 0; i < nu; i++ {
-		cases = append(cases, c15Gen(c, c.Rng.Fork(), true))
+		cs := c15Gen(c, c.Rng.Fork(), true)
+		if i%3 == 1 {
+			c15AddHeaderActions(cs, c.Rng.Fork(), 5, i%2 == 0)
+		}
+		cases = append(cases, cs)
+	}
+	nh := c.N(24, 300) // sessions made for the header that comes and goes (c15hdr.go)
+	for i := 0; i < nh; i++ {
+		cs := c15Gen(c, c.Rng.Fork(), false)
+		c15KindHdr(cs, c.Rng.Fork())
+		cases = append(cases, cs)
 	}
 	nm := c.N(30, 300) // items that take several rows
 	for i := 0; i < nm; i++ {
 		cs := c15Gen(c, c.Rng.Fork(), false)
 		c15Kind(cs, c.Rng.Fork(), []string{"wrap", "wrap", "read0"}[i%3])
+		if i%4 == 2 {
+			c15AddHeaderActions(cs, c.Rng.Fork(), 5, true)
+		}
 		cases = append(cases, cs)
 	}
 	var wg sync.WaitGroup
